@@ -228,7 +228,7 @@ def location(l):
     g, e = l.geo_transformation, l.environment
     return {"geo_name_id": l.geo_name_id, "lat": R(l.gps_latitude), "lon": R(l.gps_longitude),
             "geo": None if g is None else {"ref": g.geo_reference, "x": R(g.x_translation), "y": R(g.y_translation), "rot": R(g.z_rotation), "scale": R(g.scaling)},
-            "env": None if e is None else {"time": None if e.time is None else (e.time.hours, e.time.minutes),
+            "env": None if e is None else {"time": None if e.time is None else (e.time.hours, e.time.minutes, e.time.day, e.time.month, e.time.year),
                                            "time_of_day": None if e.time_of_day is None else e.time_of_day.name,
                                            "weather": None if e.weather is None else e.weather.name,
                                            "underground": None if e.underground is None else e.underground.name}}
